@@ -167,8 +167,12 @@ def one_process_per_task(ctx: Ctx):
                  'the child entry runs the thunk zero or several times')
     subm = ctx.P.find_method(ex.cls, 'submit')
     stores = [w for w in field_writes(subm) if w.field == ex.pending and w.kind == 'item_store']
-    okp = bool(stores) and isinstance(stores[0].node.value, ast.Call) and dotted(stores[0].node.value.func) in ('functools.partial', 'partial') \
-        and [src(a) for a in stores[0].node.value.args] == ['fn', '*args'] and [k.arg for k in stores[0].node.value.keywords] == [None]
+    sv = None
+    if stores:
+        gs, rds = ctx.cfg(subm), ctx.rd(subm)
+        sv = expand_locals(gs, rds, stores[0].node.value, gs.primary(stores[0].node))     # a local holding the partial is read through
+    okp = bool(stores) and isinstance(sv, ast.Call) and dotted(sv.func) in ('functools.partial', 'partial') \
+        and [src(a) for a in sv.args] == ['fn', '*args'] and [k.arg for k in sv.keywords] == [None]
     yield ctx.ob('C16.ONE-PROCESS-PER-TASK', okp, subm, stores[0].node if stores else subm.node, 'thunk = partial(fn, *args, **kwargs) of this submission',
                  '' if okp else 'the stored thunk is not the submitted callable with its own arguments')
 
